@@ -218,7 +218,9 @@ verif_osstring_from($a)
         r matches Ok(root) ==> nearest_repo_root(current_path, root), // [M2.post.nearest_ancestor_with_git_entry_or_hg_dir]
         r is Err ==> no_repo_root(current_path), // [M2.post.err_only_without_root]
         // summary used by M1 (the nearest root is unique: `lemma_nearest_root_is_spec`)
-        r matches Ok(root) ==> nearest_repo_root(current_path, root) && repo_root_spec(current_path) == Some(root), // [M2.post.is_spec]
+        // (stated as an implication from the first clause: the lemma's trigger term is then a hypothesis, which
+        // keeps the proof independent of the solver's state)
+        r matches Ok(root) ==> (nearest_repo_root(current_path, root) ==> repo_root_spec(current_path) == Some(root)), // [M2.post.is_spec]
         r is Err ==> repo_root_spec(current_path) is None,
 //@macro rule=E1 name=anyhow to=<<anyhow::verif_err()>> optional=1
 //@closure rule=E12 find=<<|path|>> nth=0 of=2 params=<<|path: &&Path|>> ret=<<hit: bool>>
